@@ -6,6 +6,7 @@
 package simsync
 
 import (
+	"fmt"
 	"path/filepath"
 	"runtime"
 	"sort"
@@ -253,3 +254,27 @@ func Reset() {
 	sites = map[string]int{}
 	regMu.Unlock()
 }
+
+// Keys returns the keys of m in a deterministic order (sorted by their %v rendering).
+// The simulated build iterates maps through Keys/Values: Go's own map iteration order
+// cannot be seeded, and any order is a legal one.
+func Keys[K comparable, V any](m map[K]V) []K {
+	ks := make([]K, 0, len(m))
+	for k := range m {
+		ks = append(ks, k)
+	}
+	sort.Slice(ks, func(i, j int) bool { return render(ks[i]) < render(ks[j]) })
+	return ks
+}
+
+// Values returns the values of m ordered by Keys(m).
+func Values[K comparable, V any](m map[K]V) []V {
+	ks := Keys(m)
+	vs := make([]V, 0, len(ks))
+	for _, k := range ks {
+		vs = append(vs, m[k])
+	}
+	return vs
+}
+
+func render(k any) string { return fmt.Sprintf("%v", k) }
